@@ -1,4 +1,5 @@
 pub mod aead;
+pub mod ctprobe;
 pub mod ctrjump;
 pub mod drg;
 pub mod hashctx;
@@ -36,6 +37,7 @@ pub fn all() -> Vec<&'static dyn Scenario> {
         &robust::Misuse,
         &robust::LenWrap,
         &robust::ValidEdge,
+        &ctprobe::CtProbe,
     ]
 }
 
